@@ -57,7 +57,7 @@ def run(t, budget=1.0):
             if sc.writes > 1:
                 res.nontriv(common.text_hash("settag", entry.dir, " ".join(sc.tok)))
             return
-        vals = data.draw(values.level_values(L, max_entries=3, inflate=data.draw(st.booleans())))
+        vals = data.draw(values.level_values(L, max_entries=3, inflate=data.draw(st.booleans()), model=M))
         img, size = M.encode_message(L, vals, background=data.draw(st.sampled_from([0, 0xFF, 0x3C])))
         hx = img.hex()
         if part == "gettag":
